@@ -229,6 +229,10 @@ def run(prog: Program, rep: Report, tier: str):
     from . import c11 as _c11
 
     _c11.hints_namespace(prog, rep, "R05.8")
+    rep.rule("R05.9", "members of a parameterised user generic get the alias's arguments in the member's own parameter order (shared with R15.10)", floor=1)
+    from . import c15 as _c15
+
+    _c15.alias_substitution(prog, rep, "R05.9")
     facts = {}
     for d in ("marshal", "unmarshal"):
         ff = factory_facts(prog, d)
